@@ -488,6 +488,6 @@ def run(spec, ctx):
             if idx % 37 == 0:
                 ctx.sample(case)
         except Exception as exc:
-            ctx.error(f"case {idx}", exc)
+            ctx.raised("c07.no_exception", f"case {idx}", exc)
         finally:
             shutil.rmtree(tmp, ignore_errors=True)
